@@ -19,7 +19,8 @@ class Check(ReduceBase):
         return {'skel': obs['skel']}
 
     def decode(self, case, v):
-        d = A.decode_observation(v)
+        _wf, o = v
+        d = A.decode_observation(o)
         return {'err': d['err']} if 'err' in d else {'skel': d['skel']}
 
     def nontrivial(self, case, obs):
